@@ -35,6 +35,21 @@ def check_case(ctx, cs):
         if bad:
             ctx.violate(site, tg, small, {"field": bad, "expected_size": exp["size"], "got_size": list(obj._control_points_size)})
             continue
+        if via == "operations":
+            # the last removal applied to a deep COPY of the object: the source keeps its knot vectors and control points
+            try:
+                import copy as _copy
+                from ..histories import apply_step as _apply
+                src, _i = replay_history(sh0, hist[:-1], "operations")
+                before = _copy.deepcopy(project(src))
+                cp = _copy.deepcopy(src)
+                _apply(cp, hist[-1], "operations")
+                if project(src) != before:
+                    ctx.violate(site, tg + ["source_changed_by_removal_on_copy"], small, {"source_kv": [list(U) for U in src._knot_vector]})
+                elif same_def(project(cp), exp, 1e-8):
+                    ctx.violate(site, tg + ["removal_on_copy"], small, {"field": same_def(project(cp), exp, 1e-8)})
+            except Exception as e:
+                ctx.violate(site, tg + ["removal_on_copy", "raises"], small, {"exception": repr(e)[:200]})
         try:
             ref = build(sh0)
             pd = len(sh0["deg"])
